@@ -6,15 +6,17 @@
 From AS Require Import Base.Str Oidc.Types Store.Spec Store.Memory Store.Redis Corr.Common.
 From AS Require Export Corr.C12.
 
-Record g10 := { ga_lo : Z; ga_hi : Z; gl_any : Z; gl_data : Z; g_tok : bool; g_auth : bool; g_unsure : bool }.
+(* per component (tokens, login state): does the ghost hold it, and is that uncertain (the session was written inside the last
+   second before a limit, so the store may have kept it or started a new one - a new one has lost the other component) *)
+Record g10 := { ga_lo : Z; ga_hi : Z; gl_any : Z; gl_data : Z; g_tok : bool; g_auth : bool; g_utok : bool; g_uauth : bool }.
 Definition ghost10 := list (string * g10).
 
 Section Band.
   Variables abs idle : Z.
   Definition surely_dead (e : g10) (now : Z) : bool :=
     ((0 <? abs)%Z && (ga_hi e + abs <? now)%Z) || ((0 <? idle)%Z && (gl_any e + idle <? now)%Z).
-  Definition surely_alive (e : g10) (now : Z) : bool :=
-    negb (g_unsure e) &&
+  (* a whole second remains inside both limits *)
+  Definition in_limits (e : g10) (now : Z) : bool :=
     (negb (0 <? abs)%Z || (now + second <=? ga_lo e + abs)%Z) && (negb (0 <? idle)%Z || (now + second <=? gl_data e + idle)%Z).
 
   Definition sid_of (o : sop) : string := match o with OSetTok s _ | OGetTok s | OSetAuth s _ | OGetAuth s | OClearAuth s | ORemove s => s end.
@@ -25,11 +27,13 @@ Section Band.
     let cur := match lookup sid g with Some e => if surely_dead e now then None else Some e | None => None end in
     let write (tok auth : bool) :=
       match cur with
-      | None => set_key sid {| ga_lo := now; ga_hi := now; gl_any := now; gl_data := now; g_tok := tok; g_auth := auth; g_unsure := false |} g
-      | Some e => set_key sid {| ga_lo := ga_lo e; ga_hi := if surely_alive e now then ga_hi e else now; gl_any := now; gl_data := now;
-                                  g_tok := tok || g_tok e; g_auth := auth || g_auth e;
-                                  (* written inside the last second: the store may have kept the session or started a new one *)
-                                  g_unsure := g_unsure e || negb (surely_alive e now) |} g
+      | None => set_key sid {| ga_lo := now; ga_hi := now; gl_any := now; gl_data := now; g_tok := tok; g_auth := auth; g_utok := false; g_uauth := false |} g
+      | Some e =>
+          let kept := in_limits e now in     (* otherwise the store may have started a new session: the OTHER component may be gone *)
+          set_key sid {| ga_lo := ga_lo e; ga_hi := if kept then ga_hi e else now; gl_any := now; gl_data := now;
+                         g_tok := tok || g_tok e; g_auth := auth || g_auth e;
+                         g_utok := if tok then false else g_utok e || negb kept;
+                         g_uauth := if auth then false else g_uauth e || negb kept |} g
       end in
     match o, r with
     | OSetTok _ _, _ => (write true false, 0)
@@ -39,21 +43,36 @@ Section Band.
         match cur with
         | None => (remove_key sid g, 0)
         | Some e => (set_key sid {| ga_lo := ga_lo e; ga_hi := ga_hi e; gl_any := now; gl_data := now; g_tok := g_tok e; g_auth := false;
-                                    g_unsure := g_unsure e || negb (surely_alive e now) |} g, 0)
+                                    g_utok := g_utok e || negb (in_limits e now); g_uauth := false |} g, 0)
         end
-    | OGetTok _, Some (RTok (Some _)) | OGetAuth _, Some (RAuth (Some _)) =>
+    | OGetTok _, Some (RTok (Some _)) =>
         match cur with
         | None => (g, 6)
-        | Some e => (set_key sid {| ga_lo := ga_lo e; ga_hi := ga_hi e; gl_any := now; gl_data := now; g_tok := g_tok e; g_auth := g_auth e; g_unsure := false |} g, 0)
+        | Some e => (set_key sid {| ga_lo := ga_lo e; ga_hi := ga_hi e; gl_any := now; gl_data := now; g_tok := true; g_auth := g_auth e;
+                                    g_utok := false; g_uauth := g_uauth e || negb (in_limits e now) |} g, 0)
+        end
+    | OGetAuth _, Some (RAuth (Some _)) =>
+        match cur with
+        | None => (g, 6)
+        | Some e => (set_key sid {| ga_lo := ga_lo e; ga_hi := ga_hi e; gl_any := now; gl_data := now; g_tok := g_tok e; g_auth := true;
+                                    g_utok := g_utok e || negb (in_limits e now); g_uauth := false |} g, 0)
         end
     | OGetTok _, Some (RTok None) | OGetAuth _, Some (RAuth None) =>
         match cur with
         | None => (remove_key sid g, 0)
         | Some e =>
-            let had := match o with OGetTok _ => g_tok e | _ => g_auth e end in
-            if had then (remove_key sid g, if surely_alive e now then 7 else 0)       (* the store dropped it *)
+            let is_tok := match o with OGetTok _ => true | _ => false end in
+            let had := if is_tok then g_tok e else g_auth e in
+            let unsure := if is_tok then g_utok e else g_uauth e in
+            if had then
+              (* the component is gone: the store dropped the session (and possibly started a new one with the other component) *)
+              if unsure then
+                (set_key sid {| ga_lo := ga_lo e; ga_hi := ga_hi e; gl_any := now; gl_data := gl_data e;
+                                g_tok := if is_tok then false else g_tok e; g_auth := if is_tok then g_auth e else false;
+                                g_utok := if is_tok then false else g_utok e; g_uauth := if is_tok then g_uauth e else false |} g, 0)
+              else (remove_key sid g, if in_limits e now then 7 else 0)
             else (set_key sid {| ga_lo := ga_lo e; ga_hi := ga_hi e; gl_any := now; gl_data := gl_data e; g_tok := g_tok e; g_auth := g_auth e;
-                                 g_unsure := g_unsure e |} g, 0)
+                                 g_utok := g_utok e; g_uauth := g_uauth e |} g, 0)
         end
     | _, _ => (g, 0)      (* an error answer: nothing is learnt *)
     end.
